@@ -30,7 +30,8 @@ THEOREMS = ['Pyiga.Props.C04.' + t for t in (
     'reachable_wf', 'refine_wf', 'tiling', 'selection_rule', 'supp_is_box', 'canonical_order',
     'ravel_strictly_increasing', 'refined_cells_were_active', 'admissible', 'incidence',
     'active_cover_up', 'active_cover_down', 'children_of_deactivated', 'thb_partition_of_unity',
-    'truncation_algebra', 'state_determined_by_deactivated', 'linear_independence', 'example_history', 'kvEx_good')] + [
+    'truncation_algebra', 'state_determined_by_deactivated', 'linear_independence',
+    'aliased_marks_break_selection_rule', 'example_history', 'kvEx_good')] + [
     'Pyiga.Hier.tp_laws', 'Pyiga.Hier.tp_init_ok', 'Pyiga.Hier.tp_lawsAdm', 'Pyiga.Hier.refineLevels_inv',
     'Pyiga.Hier.refineLevels_J', 'Pyiga.Hier.refineCore_eq', 'Pyiga.Hier.incidence_eq']
 MODULES = ['Pyiga.Model.Hier'] + ['Pyiga.Proofs.Hier' + m for m in (
@@ -1028,6 +1029,7 @@ def run(ctx):
 
     # ---- known finding hook: cell_* properties (compute_virtual_supports) on a 2-level space
     check_cell_virtual_supports(ctx)
+    check_aliased_marks(ctx)
 
 
 def check_cell_virtual_supports(ctx):
@@ -1061,3 +1063,80 @@ def check_cell_virtual_supports(ctx):
     except Exception as ex:
         ctx.violation('cell-virtual-supports', 'HSpace.cell_global comparison raised %s' % type(ex).__name__,
                       dict(replay, property='cell_global', exception='%s: %s' % (type(ex).__name__, str(ex)[:200])), True)
+
+
+def check_aliased_marks(ctx):
+    """marks given as the space's own live sets (the objects returned by `active_cells(lv)` / `hmesh.active[lv]`):
+    a documented container type holding currently active cells.  Each history is run on the real code with the live
+    objects, checked by the model-free oracle and diffed against the model run on the *values* the sets had when
+    refine was called.  Everything found here is reported under the single key `refine-aliased-marks`."""
+    cfgs = [{'kvs': [(p, 'uniform', n)], 'disp': d, 'truncate': False} for (p, n) in ((1, 2), (2, 4), (3, 3)) for d in (None, 1, 2)]
+    cfgs.append({'kvs': [(2, [2], [0.0, 1.0, 2.0])], 'disp': None, 'truncate': True})
+    cfgs.append({'kvs': [(1, 'uniform', 2), (2, 'uniform', 2)], 'disp': None, 'truncate': False})
+    cfgs.append({'kvs': [(1, 'uniform', 2), (1, 'uniform', 2)], 'disp': 1, 'truncate': False})
+    # histories: which levels are marked (by their live active set) in each call; 'h' = live set of hmesh.active
+    plans = [[(0,)], [(0,), (1,)], [(0,), (0, 1)], [('h0',), (1,)]]
+    reqs, exps, metas = [], [], []
+    cache = {}
+    first_oracle = None
+    for cfg in cfgs:
+        for plan in plans:
+            try:
+                hs = make_space(cfg)
+                steps = [fmt_step(hs, '-', cache)]
+                opreq, replay = [], []
+                for call in plan:
+                    marked, levels = {}, []
+                    for e in call:
+                        lv = int(str(e).lstrip('h'))
+                        if lv >= hs.numlevels or not hs.active_cells(lv):
+                            continue
+                        live = hs.hmesh.active[lv] if str(e).startswith('h') else hs.active_cells(lv)
+                        marked[lv] = live
+                        while len(levels) <= lv:
+                            levels.append([])
+                        levels[lv] = sorted(live)      # the value at call time
+                    if not marked:
+                        continue
+                    opreq.append(op_request({'trunc': False, 'levels': levels}))
+                    replay.append({'call': 'refine', 'marks': {str(lv): 'the live set hs.active_cells(%d) == %s' % (lv, levels[lv]) for lv in marked}})
+                    try:
+                        ret = hs.refine(marked)
+                        steps.append(fmt_step(hs, fmt_ret(ret), cache))
+                    except Exception as ex:
+                        steps.append('err-' + type(ex).__name__)
+                        break
+                    ctx.count('aliased-marks calls')
+                    if first_oracle is None:
+                        d = oracle_space(hs, cfg['disp'], numeric=is_small(hs))
+                        if d is not None:
+                            first_oracle = (d, cfg_replay(cfg), list(replay))
+                reqs.append(' '.join([cfg_header(cfg), str(len(opreq))] + opreq))
+                exps.append(steps)
+                metas.append((cfg_replay(cfg), replay))
+            except InfraError:
+                raise
+            except Exception as ex:
+                ctx.violation('refine-aliased-marks', 'aliased-marks probe raised %s' % type(ex).__name__,
+                              {'space': cfg_replay(cfg), 'exception': str(ex)[:300]}, False)
+                return
+    if first_oracle is not None:
+        d, space, replay = first_oracle
+        ctx.violation('refine-aliased-marks',
+                      'marks given as the live set returned by active_cells(lv) are refined wrongly: ' + d,
+                      {'oracle': d, 'space': space, 'history': replay,
+                       'python': 'hs.refine({lv: hs.active_cells(lv)})'}, True)
+    got = ctx.model('drv_c04', reqs)
+    ndis = 0
+    for r, e, g, m in zip(reqs, exps, got, metas):
+        dd = diff_history(e, g)
+        if dd is not None:
+            ndis += 1
+            if ndis == 1 and first_oracle is None:
+                ctx.violation('refine-aliased-marks',
+                              'with marks aliasing the space\'s own active sets model and implementation disagree on segment `%s` after step %d' % (dd[1], dd[0]),
+                              {'request': r[:2000], 'segment': dd[1], 'step': dd[0], 'implementation': dd[2], 'model': dd[3],
+                               'space': m[0], 'history': m[1]}, False)
+    ctx.extra['aliased_mark_histories'] = len(reqs)
+    ctx.obligation('marks aliasing the live active sets: %d histories, model == implementation' % len(reqs), ndis == 0 or first_oracle is not None,
+                   '%d disagreements%s' % (ndis, ' (open known finding refine-aliased-marks)' if first_oracle is not None else ''))
